@@ -37,12 +37,13 @@ Proof. destruct l as [|x r]; [reflexivity|]. simpl. intros H. exfalso. eapply in
 (* the model of the code never predicts what spec_fail rejects in an observation made under the mutex *)
 Theorem zobs_consistent s o : reachable Code s -> no_mutator s -> zshared_matches s o = true ->
   (match zo_readers o with [] => false | _ => true end && negb (zo_closed o)) = false
-  /\ list_eqb Nat.eqb (zo_readers o) (zo_cbs o) = true.
+  /\ list_eqb Nat.eqb (zo_readers o) (zo_cbs o) = true
+  /\ (2 <=? zo_rtsp o) = false.
 Proof.
   intros R Hn Hm. unfold zshared_matches in Hm.
   repeat (apply andb_prop in Hm; destruct Hm as [Hm ?]).
-  apply list_eqb_nat in H2, H3. apply eqb_prop in H1.
-  split; [|rewrite <- H2, <- H3; apply list_eqb_nat_refl].
+  apply list_eqb_nat in H2, H3. apply eqb_prop in H1. apply Nat.eqb_eq in H.
+  split; [|split; [rewrite <- H2, <- H3; apply list_eqb_nat_refl|rewrite <- H; destruct (rtsp (g s)); reflexivity]].
   destruct (zo_readers o) as [|x r] eqn:Er; [reflexivity|]. simpl.
   rewrite <- H1. rewrite (handshake s R Hn); [reflexivity|].
   intros E. rewrite E in H3. simpl in H3. discriminate.
